@@ -369,6 +369,117 @@ func genMatch(r *hx.Rng) *gScen {
 	return g.sc
 }
 
+// a cycle that closes through a multi-valued point: a → b by name, b → []I by type with a among several implementers;
+// a (sometimes another member) is substituted, so the stale-version check has to see a holder that received the
+// early reference as a NON-first, non-last slice element
+func genSliceCycle(r *hx.Rng) *gScen {
+	g := newBuilder(r)
+	ifc := r.Intn(3) // Ifc0..Ifc2 have slice slots S0..S2
+	has := func(u utInfo) bool {
+		for _, x := range u.ifs {
+			if x == ifc {
+				return !u.pp
+			}
+		}
+		return false
+	}
+	a := g.addNode(g.randType(func(u utInfo) bool { return has(u) && !u.lazy }), r.P(1, 4))
+	b := g.addNode(g.randType(func(u utInfo) bool { return !u.pp }), r.P(1, 4))
+	g.edgeByName(a, b, false)
+	g.sc.nodes[b].slots[[]string{"S0", "S1", "S2"}[ifc]] = "w"
+	others := 1 + r.Intn(3)
+	for j := 0; j < others; j++ {
+		x := g.addNode(g.randType(has), r.P(1, 3))
+		if r.P(1, 3) {
+			g.edgeByName(x, b, r.P(1, 3))
+		}
+	}
+	switch r.Intn(6) {
+	case 0:
+	case 1:
+		g.sc.nodes[a].early = 1
+	case 2, 3:
+		g.sc.nodes[a].after = 2
+	case 4:
+		g.sc.nodes[a].early, g.sc.nodes[a].after = 1, 2
+	default:
+		g.sc.nodes[a].early, g.sc.nodes[a].after = 1, 1
+	}
+	if r.P(1, 4) {
+		x := r.Intn(len(g.sc.nodes))
+		g.sc.nodes[x].after = 2
+	}
+	return g.sc
+}
+
+// sibling single-valued points of the SAME type on one holder: a qualified one first (narrowed to several non-primary
+// candidates), then an unqualified one for which a unique Primary (or a unique unnamed component) exists
+func genSiblings(r *hx.Rng) *gScen {
+	g := newBuilder(r)
+	// Ifc0 implementers: T4 (qualifier, no primary) twice with the same qualifier, T3 (Primary), T0/T1 (plain)
+	q := []string{"a", "b"}[r.Intn(2)]
+	for i := 0; i < 2+r.Intn(2); i++ {
+		x := g.addNode(4, false)
+		g.sc.nodes[x].q = q
+	}
+	if r.P(2, 3) {
+		g.addNode(3, r.P(1, 2)) // the unique Primary
+	} else {
+		g.addNode(0, true) // the unique unnamed one
+	}
+	if r.P(1, 2) {
+		g.addNode(1, false)
+	}
+	nh := 1 + r.Intn(2)
+	for j := 0; j < nh; j++ {
+		h := g.addNode(g.randType(func(u utInfo) bool { return !u.pp && !u.lazy }), r.P(1, 3))
+		g.sc.nodes[h].slots["X0"] = "w,qualifier=" + q
+		g.sc.nodes[h].slots["X0b"] = "w"
+		if r.P(1, 2) {
+			g.sc.nodes[h].slots["S0"] = "w"
+		}
+		if r.P(1, 3) {
+			g.sc.nodes[h].slots["X1"] = "w,qualifier=" + q
+		}
+	}
+	return g.sc
+}
+
+// several func-tag points with `returns` on ONE holder, over providers that expose the methods with different results
+func genFunc(r *hx.Rng) *gScen {
+	g := newBuilder(r)
+	for _, ty := range []int{10, 11, 12, 16} {
+		if r.P(3, 4) {
+			g.addNode(ty, r.P(1, 2))
+		}
+		if r.P(1, 3) {
+			g.addNode(ty, false)
+		}
+	}
+	if len(g.sc.nodes) == 0 {
+		g.addNode(10, true)
+	}
+	nh := 1 + r.Intn(2)
+	tags := []string{"F1,returns=x", "F1,returns=y", "F1,returns=z", "F1,returns=x y", "F1,returns=*", "F0", "F0,returns=", "F2", "F2,returns=*", "F1"}
+	slots := []string{"X3", "A0", "A1", "A2", "AS0", "X0", "X1", "S0", "S1"}
+	for j := 0; j < nh; j++ {
+		h := g.addNode(g.randType(func(u utInfo) bool { return !u.pp }), r.P(1, 3))
+		k := 2 + r.Intn(3)
+		for i := 0; i < k; i++ {
+			s := slots[r.Intn(len(slots))]
+			if _, ok := g.sc.nodes[h].slots[s]; ok {
+				continue
+			}
+			t := "f" + tags[r.Intn(len(tags))]
+			if r.P(1, 2) {
+				t += ",required=false"
+			}
+			g.sc.nodes[h].slots[s] = t
+		}
+	}
+	return g.sc
+}
+
 // diamond: top depends on l and r, both depend on bottom; optionally bottom depends back on top (cycle with tails)
 func genDiamond(r *hx.Rng) *gScen {
 	g := newBuilder(r)
@@ -511,16 +622,34 @@ func graphGen(rng *hx.Rng, n int, tier string, w *hx.Writer) {
 				emitGraph(sc, []string{"self"}, w)
 			}
 			count++
-		case k < 16:
+		case k < 14:
 			sc := genMatch(r)
 			if active() {
 				emitGraph(sc, []string{"match"}, w)
 			}
 			count++
-		case k < 18:
+		case k < 15:
 			sc := genDiamond(r)
 			if active() {
 				emitGraph(sc, []string{"diamond"}, w)
+			}
+			count++
+		case k == 15:
+			sc := genSiblings(r)
+			if active() {
+				emitGraph(sc, []string{"siblings"}, w)
+			}
+			count++
+		case k == 16:
+			sc := genFunc(r)
+			if active() {
+				emitGraph(sc, []string{"func"}, w)
+			}
+			count++
+		case k < 18:
+			sc := genSliceCycle(r)
+			if active() {
+				emitGraph(sc, []string{"slicecycle"}, w)
 			}
 			count++
 		case k < 19 || k == 19 && r.P(1, 2):
@@ -530,7 +659,17 @@ func graphGen(rng *hx.Rng, n int, tier string, w *hx.Writer) {
 			}
 			count++
 		default:
-			for _, sc := range genFaultSweep(r) {
+			sweep := genFaultSweep(r)
+			if tier != "thorough" && len(sweep) > 14 {
+				// a random sample of the fault places per base scenario (every place is reached across base scenarios)
+				perm := r.Perm(len(sweep))
+				var pick []*gScen
+				for _, i := range perm[:14] {
+					pick = append(pick, sweep[i])
+				}
+				sweep = pick
+			}
+			for _, sc := range sweep {
 				if active() {
 					emitGraph(sc, []string{"faultsweep"}, w)
 				}
